@@ -50,7 +50,7 @@ theorem real_unit_rejected_put_not_served {C : Cacher} (L : C.Lawful) (u : RU C)
   realUnit_rejected_put_not_served L u k v hi h
 
 /-- the factory refuses a unit whose persister batch is larger than its cache (translated from `NewStorageUnitFromConf`) -/
-theorem factory_refuses_batch_larger_than_cache (maxBatch capacity : Nat) (h : Gen.unitConfRejected maxBatch capacity = false) :
+theorem factory_refuses_batch_larger_than_cache (maxBatch capacity : Nat) (h : Gen.unitConfRejected (dbConf_MaxBatchSize := maxBatch) (cacheConf_Capacity := capacity) = false) :
     maxBatch ≤ capacity := GenProofs.unitConf_accepted maxBatch capacity h
 
 /-- (regenerated fact) Put, Get (lookup + persister read + refill) and Remove each hold the unit lock for their whole body:
